@@ -22,6 +22,42 @@ type Case struct {
 	ScaleExp int `json:"scale_exp,omitempty"`
 	// Respelled: an operand lists several shells in one Polygon value, or its rings in an order other than shell first
 	Respelled bool `json:"respelled,omitempty"`
+	// EmptyA / EmptyB: the operand is a value without any area (the drawn A or B is not used): NewBounds (geom.NewBounds(),
+	// the box before it is extended), InvertedBounds (Max < Min, laid over the other operand), Polygon{}, Polygon(nil),
+	// Polygon{{}}, MultiPolygon{}, MultiPolygon{{}}
+	EmptyA string `json:"empty_a,omitempty"`
+	EmptyB string `json:"empty_b,omitempty"`
+}
+
+var emptyKinds = []string{"NewBounds", "NewBounds", "InvertedBounds", "InvertedBounds", "Polygon{}", "Polygon(nil)", "Polygon{{}}", "MultiPolygon{}", "MultiPolygon{{}}"}
+
+// emptyGeom builds the operand without area; (cx, cy, q) place the inverted box over the other operand.
+func emptyGeom(kind string, cx, cy, q float64) geom.Polygonal {
+	switch kind {
+	case "NewBounds":
+		return geom.NewBounds()
+	case "InvertedBounds":
+		return &geom.Bounds{Min: geom.Point{X: cx + q, Y: cy + q}, Max: geom.Point{X: cx - q, Y: cy - q}}
+	case "Polygon{}":
+		return geom.Polygon{}
+	case "Polygon(nil)":
+		return geom.Polygon(nil)
+	case "Polygon{{}}":
+		return geom.Polygon{{}}
+	case "MultiPolygon{}":
+		return geom.MultiPolygon{}
+	}
+	return geom.MultiPolygon{{}}
+}
+
+func emptyType(kind string) string {
+	switch kind {
+	case "NewBounds", "InvertedBounds":
+		return "Bounds"
+	case "MultiPolygon{}", "MultiPolygon{{}}":
+		return "MultiPolygon"
+	}
+	return "Polygon"
 }
 
 var kinds = []string{"Polygon", "MultiPolygon", "Bounds"}
@@ -122,6 +158,16 @@ func gen(t *rapid.T) Case {
 		return g
 	}
 	c.A, c.B = respell(c.A, "A"), respell(c.B, "B")
+	if rapid.IntRange(0, 11).Draw(t, "emptyoperand") == 5 {
+		// one operand without any area, in either position
+		k := rapid.SampledFrom(emptyKinds).Draw(t, "emptykind")
+		if rapid.Bool().Draw(t, "emptyfirst") {
+			c.EmptyA, c.A = k, vkit.GJ{T: "Polygon"}
+		} else {
+			c.EmptyB, c.B = k, vkit.GJ{T: "Polygon"}
+		}
+		c.Config = "emptyoperand"
+	}
 	if rapid.IntRange(0, 2).Draw(t, "scaled") == 1 {
 		c.ScaleExp = rapid.OneOf(rapid.IntRange(-10, 40), rapid.IntRange(-10, 40), rapid.IntRange(-10, 40), rapid.IntRange(-60, -10), rapid.IntRange(-200, 200)).Draw(t, "scale_exp")
 	}
@@ -322,6 +368,12 @@ func nearVerticalEdge(c Case) bool {
 	pa, pb := polysOf(c.A), polysOf(c.B)
 	ax0, ay0, ax1, ay1 := bbox(pa)
 	bx0, by0, bx1, by1 := bbox(pb)
+	if c.EmptyA != "" { // an operand without vertices has no extent: the other one alone sets the scale
+		ax0, ay0, ax1, ay1 = bx0, by0, bx1, by1
+	}
+	if c.EmptyB != "" {
+		bx0, by0, bx1, by1 = ax0, ay0, ax1, ay1
+	}
 	scale := math.Max(math.Max(ax1-ax0, ay1-ay0), math.Max(bx1-bx0, by1-by0))
 	scale = math.Max(scale, math.Max(math.Max(math.Abs(ax0), math.Abs(ax1)), math.Max(math.Abs(bx0), math.Abs(bx1))))
 	for _, e := range append(vkit.EdgesOf(pa, 0), vkit.EdgesOf(pb, 1)...) {
@@ -346,7 +398,7 @@ func tinyAbsoluteScale(c Case) bool {
 		return false
 	}
 	pa, pb := polysOf(c.A), polysOf(c.B)
-	ax0, ay0, ax1, ay1 := bbox(pa)
+	ax0, ay0, ax1, ay1 := bbox(pa) // (an operand without vertices has the extent -Inf and drops out of the maximum)
 	bx0, by0, bx1, by1 := bbox(pb)
 	scale := math.Max(math.Max(ax1-ax0, ay1-ay0), math.Max(bx1-bx0, by1-by0))
 	return scale*math.Ldexp(1, c.ScaleExp) < 1e-3
@@ -354,6 +406,16 @@ func tinyAbsoluteScale(c Case) bool {
 
 func run(c Case) (v vkit.Verdict) {
 	pa, pb := polysOf(c.A), polysOf(c.B)
+	ta, tb := c.A.T, c.B.T // operand types for the messages
+	if c.EmptyA != "" {
+		pa, ta = nil, emptyType(c.EmptyA)
+	}
+	if c.EmptyB != "" {
+		pb, tb = nil, emptyType(c.EmptyB)
+	}
+	if c.EmptyA != "" && c.EmptyB != "" {
+		return v
+	}
 	ea, eb := vkit.EdgesOf(pa, 0), vkit.EdgesOf(pb, 1)
 	ax0, ay0, ax1, ay1 := bbox(pa)
 	bx0, by0, bx1, by1 := bbox(pb)
@@ -388,7 +450,10 @@ func run(c Case) (v vkit.Verdict) {
 	bboxDisjoint := ax1 < bx0 || bx1 < ax0 || ay1 < by0 || by1 < ay0
 	oneAxis := bboxDisjoint && !((ax1 < bx0 || bx1 < ax0) && (ay1 < by0 || by1 < ay0))
 	cfg := "crossing"
-	if crossings == 0 {
+	if c.EmptyA != "" || c.EmptyB != "" {
+		cfg = "one_operand_without_area"
+		v.Class("empty_operand_" + c.EmptyA + c.EmptyB)
+	} else if crossings == 0 {
 		switch {
 		case bboxDisjoint && oneAxis:
 			cfg = "bbox_disjoint_one_axis"
@@ -421,7 +486,7 @@ func run(c Case) (v vkit.Verdict) {
 		}
 	}
 	v.Class("cfg_" + cfg)
-	v.Class("kinds_" + c.A.T + "_" + c.B.T)
+	v.Class("kinds_" + ta + "_" + tb)
 	if c.Respelled {
 		v.Class("several_shells_in_one_polygon_or_hole_first")
 	}
@@ -450,6 +515,19 @@ func run(c Case) (v vkit.Verdict) {
 	sga, sameA := vkit.SharedGeom(scaleGJ(c.A, sc))
 	sgb, sameB := vkit.SharedGeom(scaleGJ(c.B, sc))
 	ga, gb := sga.(geom.Polygonal), sgb.(geom.Polygonal)
+	if c.EmptyA != "" || c.EmptyB != "" {
+		// the inverted box lies over the middle of the other operand
+		x0, y0, x1, y1 := ax0, ay0, ax1, ay1
+		if c.EmptyA != "" {
+			x0, y0, x1, y1 = bx0, by0, bx1, by1
+		}
+		cx, cy, q := (x0+x1)/2*sc, (y0+y1)/2*sc, math.Min(x1-x0, y1-y0)/4*sc
+		if c.EmptyA != "" {
+			ga = emptyGeom(c.EmptyA, cx, cy, q)
+		} else {
+			gb = emptyGeom(c.EmptyB, cx, cy, q)
+		}
+	}
 	defer func() {
 		if m := sameA(); m != "" && !v.Bad {
 			v = v.Fail("the call changed the geometry it was given (point lists are sub-slices of one array with spare capacity): %s", m)
@@ -475,18 +553,18 @@ func run(c Case) (v vkit.Verdict) {
 	for op := 0; op < 4; op++ {
 		var res geom.Polygonal
 		if p := vkit.Catch(func() { res = apply(op, ga, gb) }); p != "" {
-			return v.Fail("%s.%s(%s) panicked: %s", c.A.T, opNames[op], c.B.T, p)
+			return v.Fail("%s.%s(%s) panicked: %s", ta, opNames[op], tb, p)
 		}
 		pr, isNil := resultPolys(res, inv)
 		if isNil {
 			v.Class("nil_result")
 		}
 		// (4) closed rings from Polygon / MultiPolygon receivers
-		if c.A.T != "Bounds" {
+		if ta != "Bounds" {
 			for _, p := range pr {
 				for _, r := range p {
 					if len(r) > 0 && r[0] != r[len(r)-1] {
-						return v.Fail("%s.%s(%s): result ring not closed: %v", c.A.T, opNames[op], c.B.T, r)
+						return v.Fail("%s.%s(%s): result ring not closed: %v", ta, opNames[op], tb, r)
 					}
 				}
 			}
@@ -521,7 +599,7 @@ func run(c Case) (v vkit.Verdict) {
 		})
 		if !(bad <= tol) { // NaN-safe
 			return v.Fail("%s.%s(%s): region where the result disagrees with the point-set definition has area %.6g (expected result area %.6g, result area %.6g, tol %.3g); "+
-				"largest piece around (%v, %v); result=%v", c.A.T, opNames[op], c.B.T, bad, expected, areaR[op], tol, wx, wy, pr)
+				"largest piece around (%v, %v); result=%v", ta, opNames[op], tb, bad, expected, areaR[op], tol, wx, wy, pr)
 		}
 		// (2) the literal statement on test points with a clear margin from every input edge
 		for _, q := range pts {
@@ -532,7 +610,7 @@ func run(c Case) (v vkit.Verdict) {
 			inA, inB := vkit.PIP(p, pa) == vkit.Inside, vkit.PIP(p, pb) == vkit.Inside
 			st := vkit.PIP(p, pr)
 			if want := opTruth(op, inA, inB); (st == vkit.Inside) != want {
-				return v.Fail("%s.%s(%s): point %v inA=%v inB=%v but in result=%v", c.A.T, opNames[op], c.B.T, p, inA, inB, st)
+				return v.Fail("%s.%s(%s): point %v inA=%v inB=%v but in result=%v", ta, opNames[op], tb, p, inA, inB, st)
 			}
 		}
 	}
@@ -555,7 +633,8 @@ func TestProp(t *testing.T) {
 		ID: "C01",
 		Rule: "rapid: operand pairs with kinds drawn from {Polygon, MultiPolygon, *Bounds}^2; in 1 case of 3 both operands are handed to the operations multiplied exactly by 2^k (k in +-40 or +-200; the result is divided by 2^k again, so the oracle works at unit scale); a quarter of the multi-polygon operands is respelled as ONE Polygon value listing all rings (what the operations return for results of several pieces), a quarter of the polygons lists its rings in a drawn order (hole before shell); polygons valid by construction (two families: 2/3 star-shaped shell of 3-12 vertices (a few per cent: 100-400) with " +
 			"0-3 star-shaped holes in disjoint sectors of the inscribed disc; 1/3 non-star 'comb/snake' bands of 6-18 vertices between two chains over common knots, rotated or with vertically aligned knots, holes in the cells' inscribed discs; multi-polygons of 1-3 members in disjoint cells, every ring independently reversed/" +
-			"rotated/closed-or-unclosed); B placed by a drawn configuration (overlap, nested, in a hole, diagonal, bounding-box disjoint, far, or laid across a long thin hole of A so that its corners are inside A and no vertex of A is inside it); continuous " +
+			"rotated/closed-or-unclosed); B placed by a drawn configuration (overlap, nested, in a hole, diagonal, bounding-box disjoint, far, or laid across a long thin hole of A so that its corners are inside A and no vertex of A is inside it); in one case of twelve one operand (either position) is a value without any area - " +
+			"geom.NewBounds(), a *Bounds with Max < Min laid over the other operand, Polygon{}, Polygon(nil), Polygon{{}}, MultiPolygon{}, MultiPolygon{{}} - and the expected regions are those of an empty set; continuous " +
 			"coordinates and a variant snapped to 2^-10; cases with a vertex of one operand within 1e-7*scale of an edge of the other are skipped (counted). All four " +
 			"operations are run per case; oracle = slab (trapezoid) integration of the area where the result's even-odd membership differs from op(inA,inB), " +
 			"<= 1e-9*(areaA+areaB), plus up to 96 trapezoid-centroid test points per op with a 1e-6*scale margin, plus area identities, closed rings. " +
